@@ -12,6 +12,8 @@ from sa.report import norm
 from sa.srcmodel import Program
 from sa.srcmodel import dotted
 from sa.srcmodel import root_name
+
+from checks.shared import check_context_manager_pairing
 from sa.util import is_self_attr
 from sa.util import render_methods
 
@@ -63,67 +65,7 @@ def run(prog: Program, res: Result) -> None:  # noqa: PLR0912, PLR0915
 
     # ------------------------------------------------------------------ R1 pairing
     res.rule("C07.R1", "in RenderContext's context managers every acquisition (scope.push, loops.append, template swap) is released on all exits, including exceptions raised before the yield")
-    cms = [m for m in ctx.methods.values() if any((dotted(d) or "") == "contextmanager" for d in m.node.decorator_list)]
-    res.floor("C07.R1", "context-manager methods of RenderContext", len(cms), 2)
-    for m in cms:
-        res.analysed_functions.add(m.fid)
-        from sa.cfg import _default_may_raise
-
-        # the primitive stack operations themselves (deque.appendleft/popleft, list.append/pop on a stack the
-        # pairing keeps non-empty) are total; everything else that calls or subscripts may raise
-        cfg = CFG(m.node, may_raise=lambda st: _default_may_raise(st) and _acquire_release(st) is None)
-        guards: dict[str, str] = {}
-        # guard under which each acquire statement sits (for correlated release tests)
-        for n in ast.walk(m.node):
-            ar = _acquire_release(n)
-            if ar and ar[0] == "acquire":
-                for a in m.module.ancestors(n):
-                    if isinstance(a, ast.If) and any(n is x for b in a.body for x in ast.walk(b)):
-                        guards[ar[1]] = norm(a.test)
-                        break
-                    if a is m.node:
-                        break
-
-        def transfer(n, st, label):  # noqa: ANN001, ANN202
-            if label == "exc":
-                return st
-            if n.kind == "test" and label == "false" and n.node is not None:
-                t = norm(n.node)
-                st = frozenset(r for r in st if guards.get(r) != t)
-                return st
-            if n.kind == "stmt" and n.node is not None:
-                ar = _acquire_release(n.node)
-                if ar:
-                    return st | {ar[1]} if ar[0] == "acquire" else st - {ar[1]}
-            return st
-
-        IN = forward(cfg, frozenset(), transfer, lambda a, b: a | b)
-        acquires = [n for n in cfg.nodes if n.kind == "stmt" and n.node is not None and (_acquire_release(n.node) or ("", ""))[0] == "acquire"]
-        res.floor("C07.R1", f"acquisitions in {m.name}", len(acquires), 1)
-        leaks: dict[str, str] = {}
-        for exit_node, kind in ((cfg.raise_exit, "an exception"), (cfg.exit, "normal return")):
-            for src, label in exit_node.pred:
-                if src.id not in IN:
-                    continue
-                out = transfer(src, IN[src.id], label)
-                for r in out:
-                    leaks.setdefault(r, f"{kind} via `{norm(src.node, 50)}` (line {src.line})")
-        for a in acquires:
-            r = _acquire_release(a.node)[1]
-            site = f"{m.file}:{a.line} RenderContext.{m.name}"
-            what = f"`{norm(a.node, 50)}` released on every exit"
-            if r in leaks:
-                res.fail(
-                    "C07.R1",
-                    file=m.file,
-                    line=a.line,
-                    qualname=f"RenderContext.{m.name}",
-                    construct=f"{norm(a.node, 50)} not released",
-                    message=f"`{norm(a.node, 50)}` is still in effect when {m.name}() exits by {leaks[r]}: the {r} stack/field stays modified after the block",
-                    what=what,
-                )
-            else:
-                res.ok("C07.R1", site, what, "no exit (normal or exceptional) is reachable with the resource held")
+    check_context_manager_pairing(prog, res, "C07.R1")
 
     # ------------------------------------------------------------------ R2 with-only usage
     res.rule("C07.R2", "context.extend(...) / context.loop(...) are only ever used as `with` items")
@@ -357,3 +299,67 @@ def run(prog: Program, res: Result) -> None:  # noqa: PLR0912, PLR0915
                 fi = prog.enclosing_function(mod, c)
                 if not (fi is not None and fi.cls is not None and fi.cls.name in ("IncrementNode", "DecrementNode")):
                     res.fail("C07.R5", file=mod.relpath, line=c.lineno, qualname=fi.qualname if fi else "", construct=c, message="counter changed outside increment/decrement nodes", what="counters written by increment/decrement only")
+
+    # ------------------------------------------------------------------ R6 late-bound namespaces stay attached
+    res.rule("C07.R6", "a namespace handed to context.copy()/RenderContext() is stored by identity (no truthiness default, no copy): tags bind `with`/`for` values into it after the context was built")
+    ctx_cls = prog.cls("liquid2.context.RenderContext")
+    late = 0
+    for mod in prog.modules.values():
+        for f in mod.functions.values():
+            for c in ast.walk(f.node):
+                if isinstance(c, ast.Call) and isinstance(c.func, ast.Attribute) and c.func.attr == "copy" and root_name(c.func.value) in ("context", "ctx"):
+                    ns = next((k.value for k in c.keywords if k.arg == "namespace"), None)
+                    if isinstance(ns, ast.Name) and any(isinstance(s, ast.Subscript) and isinstance(s.ctx, ast.Store) and isinstance(s.value, ast.Name) and s.value.id == ns.id and s.lineno > c.lineno for s in ast.walk(f.node)):
+                        late += 1
+    res.floor("C07.R6", "tags that write into the namespace after building the context", late, 2)
+    for mname, params in (("__init__", ("global_data",)), ("copy", ("namespace",))):
+        m = ctx_cls.methods.get(mname)
+        if m is None:
+            raise AnalysisError(f"RenderContext.{mname} vanished")
+        for pname in params:
+            uses = [n for n in ast.walk(m.node) if isinstance(n, ast.Name) and n.id == pname and isinstance(n.ctx, ast.Load)]
+            res.floor("C07.R6", f"uses of {pname} in RenderContext.{mname}", len(uses), 1)
+            for u in uses:
+                par = m.module.parent(u)
+                what = f"RenderContext.{mname}: `{pname}` reaches the scope chain by identity"
+                site = f"{m.file}:{u.lineno} RenderContext.{mname}"
+                bad = None
+                if isinstance(par, ast.BoolOp):
+                    bad = f"`{norm(par)}` substitutes another mapping whenever the namespace is (still) empty"
+                elif isinstance(par, ast.Call) and any(u is a for a in par.args) and isinstance(par.func, ast.Name) and par.func.id in ("dict", "list", "ChainMap", "deepcopy", "copy"):
+                    bad = f"`{norm(par)}` copies the namespace"
+                elif isinstance(par, (ast.Dict, ast.Starred)) or (isinstance(par, ast.keyword) and par.arg is None):
+                    bad = f"`{norm(m.module.parent(par) or par)}` unpacks the namespace into a new mapping"
+                elif isinstance(par, ast.IfExp) and par.test is not u and not (isinstance(par.test, ast.Compare) and isinstance(par.test.ops[0], (ast.Is, ast.IsNot)) and norm(par.test.left) == pname):
+                    bad = f"`{norm(par)}` chooses by truthiness"
+                elif isinstance(par, ast.IfExp) and par.test is u:
+                    bad = f"`{norm(par)}` chooses by truthiness"
+                if bad:
+                    res.fail("C07.R6", file=m.file, line=u.lineno, qualname=f"RenderContext.{mname}", construct=f"{pname}: {bad}", message=f"{bad}: values a tag binds into its namespace after building the context (render/include `with`/`for`, macro arguments) never reach the new scope", what=what)
+                else:
+                    res.ok("C07.R6", site, what, f"used as `{norm(par)[:60]}`")
+
+    # ------------------------------------------------------------------ R7 no reaching into another context's state
+    res.rule("C07.R7", "a render context's private state (locals, counters) is reached only through `self`, and RenderContext.parent is never read: isolation cannot be bypassed by walking to the caller's context")
+    n_state = 0
+    n_parent = 0
+    for mod in prog.modules.values():
+        for a in ast.walk(mod.tree):
+            if not (isinstance(a, ast.Attribute) and isinstance(a.ctx, ast.Load)):
+                continue
+            fi = prog.enclosing_function(mod, a)
+            q = fi.qualname if fi else "<module>"
+            if a.attr in ("counters", "locals") and (root_name(a.value) in ("context", "ctx", "macro_context", "static_context", "self") and (fi is None or fi.cls is ctx_cls or root_name(a.value) != "self")):
+                n_state += 1
+                what = f"`{norm(a)}` is the context's own state"
+                if isinstance(a.value, ast.Name) and a.value.id == "self":
+                    res.ok("C07.R7", f"{mod.relpath}:{a.lineno} {q}", what, "through self")
+                else:
+                    res.fail("C07.R7", file=mod.relpath, line=a.lineno, qualname=q, construct=norm(a), message=f"`{norm(a)}` reads or writes the locals/counters of a context other than the current one: a render/macro scope sees or changes its caller's variables", what=what)
+            if a.attr == "parent":
+                recv_is_ctx = (fi is not None and fi.cls is ctx_cls) or root_name(a.value) in ("context", "ctx", "macro_context", "static_context")
+                if recv_is_ctx and not (isinstance(a.value, ast.Attribute) and a.value.attr in ("template", "path")):
+                    n_parent += 1
+                    res.fail("C07.R7", file=mod.relpath, line=a.lineno, qualname=q, construct=norm(a), message=f"`{norm(a)}` walks from a render context to the context it was copied from: state of the caller becomes reachable from an isolated scope", what=f"`{norm(a)}`: RenderContext.parent is not read")
+    res.floor("C07.R7", "locals/counters accesses", n_state, 3)
+    res.ok("C07.R7", "liquid2", "RenderContext.parent is never read", f"{n_parent} reads")
